@@ -1,4 +1,5 @@
 import SimplicityModel.Driver.ProgUtil
+import SimplicityModel.JetSpec
 /-! C05 / C07: `exec <plan> [W:i:bits…] [J:…] [T:…] I:<compact input bits>` →
 `ok <compact output bits> cells=<hw> frames=<hw> xcells=<bound> xframes=<bound>` |
 `fail assertion|failNode|jet` (+ the same marks).  The model runs the denotational `evalK`, the
@@ -62,6 +63,13 @@ def execOp (rest : List String) (withMarks : Bool) : String :=
 
 def handle : List String → String
   | "exec" :: rest => execOp rest false
+  | ["jetspec", name, inp] =>
+    match Drv.bits? inp with
+    | some bs =>
+      match JetSpec.specByName name bs with
+      | some out => Drv.showBits out
+      | none => "unspecified"
+    | none => "bad-op"
   | _ => "bad-op"
 
 end Drv.C05
